@@ -194,6 +194,7 @@ STRUCTURAL_GUARDS = [
     ("module is not None", "empty slot"), ("pattern is not None", "empty slot"),
     ("len(module.in_links) > 0", "an empty SLNK is written in the else branch"),
     ("not (len(module.in_links) > 0)", "else branch of the SLNK emission"),
+    ("module.in_links", "an empty SLNK is written in the else branch"), ("not module.in_links", "else branch of the SLNK emission"),
     ("module.chnk", "decided by C02 R7 / C03 R5"), ("self.module.chnk", "decided by C02"),
     ("ctl.attached(self.module)", "controller attach filter (C02 R2)"),
 ]
@@ -251,7 +252,41 @@ def _attr_of(e: ast.AST) -> Optional[str]:
     return None
 
 
+def _with_named_sets(repo: Repo, rel: str, e: ast.expr) -> ast.expr:
+    """Module-level names bound to a constant set / tuple (`_IMPLICIT_SLOTS = frozenset({-1, 0})`) written out."""
+    import copy
+    from .. import inline
+    sf = repo.files.get(rel)
+
+    class X(ast.NodeTransformer):
+        def visit_Name(self, node):
+            if isinstance(node.ctx, ast.Load) and sf is not None and node.id.upper() == node.id:
+                d = inline.definition_of(repo, None, sf, node)
+                inner = d.args[0] if isinstance(d, ast.Call) and norm(d.func) in ("set", "frozenset", "tuple") and len(d.args) == 1 else d
+                if isinstance(inner, (ast.Set, ast.Tuple, ast.List)) and all(isinstance(x, (ast.Constant, ast.UnaryOp)) for x in inner.elts):
+                    return copy.deepcopy(d)
+            return node
+    return X().visit(copy.deepcopy(e))
+
+
+def _simplify_guard(ge: ast.expr) -> ast.expr:
+    """not (a == b) is a != b;  not (not x) is x."""
+    while isinstance(ge, ast.UnaryOp) and isinstance(ge.op, ast.Not):
+        inner = ge.operand
+        if isinstance(inner, ast.UnaryOp) and isinstance(inner.op, ast.Not):
+            ge = inner.operand
+            continue
+        if isinstance(inner, ast.Compare) and len(inner.ops) == 1:
+            flip = {ast.Eq: ast.NotEq, ast.NotEq: ast.Eq, ast.Is: ast.IsNot, ast.IsNot: ast.Is, ast.Lt: ast.GtE, ast.GtE: ast.Lt, ast.Gt: ast.LtE, ast.LtE: ast.Gt}
+            op = flip.get(type(inner.ops[0]))
+            if op is not None:
+                return ast.Compare(left=inner.left, ops=[op()], comparators=inner.comparators)
+        break
+    return ge
+
+
 def _one_guard(repo, rep, P, wcon, w, ge, gd, defaults, secs, secname):
+    ge = _simplify_guard(_with_named_sets(repo, w.rel, ge))
     # SLnK: reader reconstructs missing slots at end of file
     if w.cid == "SLnK":
         sv = secs["project"].reader_cls
